@@ -9,6 +9,9 @@ ENGINES = [
 ]
 
 PHASES = {
+    "C12": [
+        {"pkg": "e2", "test": "TestC12Takeover", "phase": "C12/client-id-takeover"},
+    ],
     "C11": [
         {"pkg": "e2", "test": "TestC11Lifecycle", "phase": "C11/session-lifecycle"},
     ],
@@ -54,6 +57,12 @@ PHASES = {
 }
 
 META = {
+    "C12": {
+        "engine": "E2-brokermc",
+        "technique": "explicit enumeration of ordered event selections (old-session ping/subscribe/disconnect/drop, single gossip deliveries, new-session subscribe) on a 2-node in-process broker with manually scheduled gossip",
+        "text": "Two (thorough: three) connections sharing one client identifier on the same or different nodes, the first record gossiped beforehand; every ordered selection of up to 4 (quick) / 5 (thorough) of 9 events incl. delivering each pending broadcast individually. The new CONNECT is always accepted; once the old session's node holds the new record its next PINGREQ is not answered and it is torn down; the new session's record and subscriptions never disappear from a node that listed them; after all gossip every node resolves the identifier to the newest session.",
+        "note": "Before the displaced session's node has received the new record a PINGRESP is legal; run-to-quiescence between events.",
+    },
     "C11": {
         "engine": "E2-brokermc",
         "technique": "explicit enumeration of a session-script grammar x termination causes x gossip delivery policies on the 1-3 node in-process broker under virtual time",
